@@ -11,6 +11,8 @@ fn main() {
         "codec_replay" => vharness::codecrec::codec_replay(&a),
         "mac" => vharness::macdrv::vh_mac(&a),
         "macreplay" => vharness::macdrv::vh_macreplay(&a),
+        "phy" => vharness::phydrv::vh_phy(&a),
+        "phyreplay" => vharness::phydrv::vh_phyreplay(&a),
         other => {
             eprintln!("unknown command {other}");
             std::process::exit(2);
